@@ -399,6 +399,16 @@ func (d *drv) burn(s step) {
 		rec.Fatal("bridge: burn value class %q", s.V)
 	}
 	var input interface{} = map[string]interface{}{"ethereum_address": d.eths[s.Eth]}
+	if s.Eth == "" { // "no ethereum address" in every shape the payload decoder can meet
+		switch d.r.Intn(4) {
+		case 1:
+			input = map[string]interface{}{}
+		case 2:
+			input = map[string]interface{}{"ethereum_adress": d.eths["e1"]}
+		case 3:
+			input = map[string]interface{}{"ethereum_address": nil}
+		}
+	}
 	pre := d.balances()
 	res := w.DoRec(d.rc, d.sc(c, "burn", input, v), nil)
 	post := d.balances()
